@@ -16,7 +16,10 @@ r = sh("git -C /repo worktree add --detach %s HEAD" % WT); assert r.returncode =
 try:
     # untracked fixtures the suite may need are identical in a worktree (tracked files only)
     d0 = subprocess.run([PY, os.path.abspath(os.path.join(src, "demo.py"))], cwd=WT, env=env, capture_output=True, text=True, timeout=900)
-    r = sh("git -C %s apply %s" % (WT, os.path.abspath(os.path.join(src, "patch.diff")))); assert r.returncode == 0, r.stderr
+    r = sh("git -C %s apply %s" % (WT, os.path.abspath(os.path.join(src, "patch.diff"))))
+    if r.returncode != 0:       # the base moved (later fix: commits): three-way
+        r = sh("git -C %s apply -3 %s" % (WT, os.path.abspath(os.path.join(src, "patch.diff"))))
+    assert r.returncode == 0, r.stderr
     which = subprocess.run([PY, "-c", "import pynapple;print(pynapple.__file__)"], cwd=WT, env=env, capture_output=True, text=True).stdout.strip()
     assert which.startswith(WT), which
     d1 = subprocess.run([PY, os.path.abspath(os.path.join(src, "demo.py"))], cwd=WT, env=env, capture_output=True, text=True, timeout=900)
